@@ -4,6 +4,26 @@ from vlib.gen import Unit, Fn, Adt, Raw
 
 MG = "crates/compiler/src/go/mangle.rs"
 
+def derived():
+    """the fixed text in front of the arity, read from the tuple arm's format string on every run; the shape `<text>{}_{}` with the arguments (typs.len(), inner) is required"""
+    from vlib import gen
+    from vlib.rsitems import AnchorLost
+    src = gen.load_source(MG)
+    s0, b0, e0 = src.find_fn("encode_ty", None)
+    body = src.text[b0:e0]
+    i = body.find("tast::Ty::TTuple { typs } =>")
+    j = body.find("tast::Ty::TEnum", i)
+    arm = body[i:j]
+    hits = re.findall(r'format!\(\s*"([^"\\{}]*)\{\}_\{\}"\s*,\s*typs\.len\(\)\s*,\s*inner\s*\)', arm)
+    if i >= 0 and len(hits) != 1:
+        # the shape before fix 5b85282 — the components directly behind a fixed text, NO arity: the fragment is checked against the same statement and fails it
+        hits = re.findall(r'format!\(\s*"([^"\\{}]*)\{\}"\s*,\s*inner\s*\)', arm)
+    if i < 0 or len(hits) != 1:
+        raise AnchorLost("encode_ty, tuple arm: `format!(\"<text>{}_{}\", typs.len(), inner)` not found (the arity directly behind a fixed text, then `_`, then the components)")
+    return ("// DERIVED from the tuple arm's format string on every run: the fixed text in front of the arity\n"
+            f'pub open spec fn tuple_pre() -> Seq<char> {{ "{hits[0]}"@ }}\n')
+
+
 UNIT = Unit(
     name="U-ENCODETY",
     properties=["C19", "C02"],
@@ -18,6 +38,7 @@ UNIT = Unit(
     items=[
         Adt(file="crates/compiler/src/tast.rs", kw="enum", name="Ty", rules=["attrs"]),
         Raw(path="contracts/fmt.shim.rs"),
+        Raw(text=derived, item="crates/compiler/src/go/mangle.rs::encode_ty tuple arm format string (tuple_pre)"),
         Raw(path="contracts/encodety.shim.rs"),
         Fn(file=MG, name="encode_ty", rename="tuple_code_of", ret="r",
            cut_from=re.compile(r"tast::Ty::TTuple \{ typs \} => \{"), cut_inside=True, cut_before="@block-end", cut_tail="",
